@@ -38,11 +38,10 @@ INVARIANT SrcCalls
 """
 
 
-def c_programs(ctx, n, nvec):
+def c_programs(ctx, n, nvec, seeds=None):
     rng = random.Random("%d:c04:c" % ctx.seed)
     out = []
-    for _ in range(n):
-        seed = rng.randrange(1 << 30)
+    for seed in (seeds or [rng.randrange(1 << 30) for _ in range(n)]):
         prng = random.Random(seed)
         prog = absprog.Gen(prng, max_funcs=3, max_stmts=6, max_depth=3).program()
         src = absprog.render_c(prog)
@@ -79,9 +78,14 @@ def prepare_c(ctx, programs, levels=LEVELS):
         byhash = {}
         for lv in levels:
             label = "O%s+gcc-ld" % lv
+            itags = []
             with native.SpillWatch() as sw:
                 try:
-                    obj = api.cc(io.StringIO(src), "x86_64", opt_level=lv)
+                    # the steps of api.cc, with the optimised module in hand (to name known defect classes in keys)
+                    m = api.c_to_ir(io.StringIO(src), "x86_64")
+                    api.optimize(m, level=lv)
+                    itags = native.ir_tags(m)
+                    obj = api.ir_to_object([m], "x86_64")
                     err = None
                 except Exception as e:  # code generation refused the program: C29's business
                     obj, err = None, "codegen:" + type(e).__name__
@@ -98,14 +102,32 @@ def prepare_c(ctx, programs, levels=LEVELS):
                 byhash[native.digest(elf)].labels.append(label)
                 continue
             u = native.Unit("%s|%s" % (p["key"], label), prefix, sig, vecs, p["ext"], elf=elf, err=err, obj=obj,
-                            labels=[label], tags=sw.tags())
+                            labels=[label], tags=sorted(set(itags + sw.tags())))
             if elf is not None:
                 byhash[native.digest(elf)] = u
             units.append(u)
         if not units:
             continue
+        if ctx.tier == "thorough":
+            # reference (DESIGN 3.10): the same source compiled by gcc -O0; judged by TLC like the other variants, but a
+            # disagreement is only printed as SPEC-SUSPECT (it questions Src/IR.tla or ppci's front-end, not the back-end)
+            ref = gcc_reference(src)
+            if ref is not None:
+                units.append(native.Unit("%s|ref:gcc-O0" % p["key"], prefix, sig, vecs, p["ext"], elf=ref, labels=["ref:gcc-O0"]))
         ready.append({"p": p, "pm": pm, "sig": sig, "vecs": vecs, "units": units})
     return ready
+
+
+def gcc_reference(src):
+    import os
+
+    with native.Workdir() as wd:
+        try:
+            o = native.gcc_compile(wd, src, flags=("-O0", "-fwrapv", "-fno-strict-aliasing"))
+            with open(o, "rb") as f:
+                return f.read()
+        except native.HarnessError:
+            return None
 
 
 def ppci_link_path(wd, ready, results):
@@ -117,12 +139,16 @@ def ppci_link_path(wd, ready, results):
     for r in ready:
         r["extra_variants"] = []
         head = r["units"][0]
+        if head.labels[0].startswith("ref:"):
+            continue
         try:
             drv = api.cc(io.StringIO(native.ppci_driver_text(head)), "x86_64", opt_level=0)
             derr = None
         except Exception as e:
             drv, derr = None, "error:driver-codegen:" + type(e).__name__
         for u in r["units"]:
+            if u.labels and u.labels[0].startswith("ref:"):
+                continue
             key = u.key.replace("+gcc-ld", "+ppci-ld")
             data, err = None, derr
             if drv is not None and u.obj is not None:
@@ -171,6 +197,8 @@ def src_level(ctx, cases, ready):
                 ctx.cov["src_frontend_divergent_executions"] = ctx.cov.get("src_frontend_divergent_executions", 0) + 1
                 continue
             for vi, lab in enumerate(c["vlabels"]):
+                if lab.startswith("ref:"):
+                    continue
                 recs.append({"key": "C04:src:%s%s:%s" % ("".join(t + ":" for t in c["vtags"][vi]), c["id"], lab),
                              "args": c["vecs"][a], "src": o, "nat": c["nat"][a][vi]})
     ctx.cov["src_status"] = stat
@@ -204,10 +232,13 @@ class Engine:
                    "(quick tier); the thorough tier also compares the native trace with the Src.tla observation directly")
         ctx.assume("prefixing the program's external names (to link many programs into one executable) does not change its meaning")
         only = (ctx.only or {}).get("case", {}).get("program") if ctx.only else None
+        if ctx.only is not None:
+            thorough = ctx.only.get("tier", ctx.tier) == "thorough"
         nvec = 6 if thorough else 4
-        programs = c_programs(ctx, 80 if thorough else 14, nvec)
-        if only:
-            programs = [p for p in programs if p["key"] == only]
+        if only and only.startswith("c") and only[1:].isdigit():
+            programs = c_programs(ctx, 0, nvec, seeds=[int(only[1:])])     # replay: rebuild that program from its seed
+        else:
+            programs = c_programs(ctx, 80 if thorough else 14, nvec)
         holder = {}
 
         def post(wd, ready, results):
